@@ -131,6 +131,8 @@ def c01(proj, rep, tier):
     nf, ne = shapes.sh1(proj, rep, SH1_FUNCS)
     rep.floor('SH1 batched manifold maps whose batch axis is tracked', nf, 7)
     rep.floor('SH1 array expressions typed with a batch-axis position', ne, 120)
+    n = numeric.f4(proj, rep, MANIFOLD)
+    rep.floor('F4 hand-written softplus sites', n, 1)
     n = shapes.sh2(proj, rep)
     rep.floor('SH2 Euler-recursion reshape sites with an exact width function', n, 4)
     rep.assume('membership itself (unit norm, PSD, X^dagger X = I, simplex, interval) for all theta is value-level: not decided; '
